@@ -39,8 +39,22 @@ def opt(s):
 
 
 # ------------------------------------------------------------------ handlers
+class _Str(str):
+    pass
+
+
+def _wrapped(a, t, cls):
+    """The argument as the caller may hold it: a plain str, a str subclass, or an unvalidated object."""
+    w = a.get("wrap")
+    if w == "strsub":
+        return _Str(t)
+    if w == "object":
+        return cls(t, allow_invalid=True)
+    return t
+
+
 def iban_new(a):
-    o = IBAN(T(a["t"]), validate_bban=a.get("vb", False))
+    o = IBAN(_wrapped(a, T(a["t"]), IBAN), validate_bban=a.get("vb", False))
     return {"val": C(str(o))}
 
 
@@ -57,7 +71,7 @@ def iban_is_valid(a):
 
 
 def bic_new(a):
-    o = BIC(T(a["t"]), enforce_swift_compliance=a.get("strict", False))
+    o = BIC(_wrapped(a, T(a["t"]), BIC), enforce_swift_compliance=a.get("strict", False))
     return {"val": C(str(o))}
 
 
